@@ -33,6 +33,61 @@ def _builder_fn(repo, name):
     return re.sub(r"\s+", " ", src[st:k + 1]).strip()
 
 
+_AGG_ARMS = {
+    "emit_core::Fold|FoldKeyed|Scan arm": r"HydroNode::Fold\s*\{\s*\.\.\s*\}\s*\|\s*HydroNode::FoldKeyed\s*\{\s*\.\.\s*\}[^=]*=>\s*\{",
+    "emit_core::Reduce|ReduceKeyed arm": r"HydroNode::Reduce\s*\{\s*\.\.\s*\}\s*\|\s*HydroNode::ReduceKeyed\s*\{\s*\.\.\s*\}\s*=>\s*\{",
+}
+
+
+def _agg_arms(repo):
+    """text of the emit_core match arms that lower fold / reduce style state (they choose the DFIR state
+    lifetime `'static` vs `'tick` from `input_top_level`)"""
+    src = scan._strip_comments_only(open(os.path.join(repo, "hydro_lang", "src", "compile", "ir", "mod.rs")).read())
+    out = {}
+    for name, pat in _AGG_ARMS.items():
+        ms = list(re.finditer(pat, src))
+        if len(ms) != 1:
+            out[name] = None
+            continue
+        j = ms[0].end() - 1
+        depth, k = 0, j
+        while k < len(src):
+            if src[k] == "{":
+                depth += 1
+            elif src[k] == "}":
+                depth -= 1
+                if depth == 0:
+                    break
+            k += 1
+        out[name] = re.sub(r"\s+", " ", src[ms[0].start():k + 1]).strip()
+    return out
+
+
+def _agg_facts(arms):
+    """the facts the model relies on: state of an aggregation whose INPUT location is top level - which
+    includes `Atomic` - gets the cross-tick lifetime, and the flag is computed with `is_top_level()`"""
+    bad = []
+    for name, txt in arms.items():
+        if not txt:
+            bad.append(name + ": arm not found")
+            continue
+        defs = re.findall(r"let input_top_level = ([^;]*);", txt)
+        if defs != ["input.metadata().location_id.is_top_level()"]:
+            bad.append("%s: input_top_level = %s" % (name, defs))
+        if not re.search(r"let lifetime = if input_top_level \{ graph_builders\.cross_tick_state_lifetime\(&out_location\) \} "
+                         r"else \{ graph_builders\.tick_state_lifetime\(&out_location\) \};", txt):
+            bad.append(name + ": lifetime is not `if input_top_level { cross_tick } else { tick }`")
+    return bad
+
+
+def _location_preds(repo):
+    """`LocationId::is_top_level` must count Atomic as top level (that is what keeps atomic state across ticks)"""
+    out = {}
+    for fn in ("is_top_level", "is_root"):
+        out["location/dynamic.rs::" + fn] = scan.fn_body(repo, "location/dynamic.rs", fn, 0)
+    return out
+
+
 def current(repo):
     cur = {}
     for (f, fn, occ) in [("live_collections/stream/mod.rs", "atomic", 0),
@@ -48,6 +103,8 @@ def current(repo):
     cur["batch_atomic.rs"] = re.sub(r"\s+", " ", scan._strip_comments_only(src)).strip()
     for fn in ("begin_atomic", "end_atomic", "batch", "yield_from_tick"):
         cur["ProdDfirBuilder::" + fn] = _builder_fn(repo, fn)
+    cur.update(_agg_arms(repo))
+    cur.update(_location_preds(repo))
     return cur
 
 
@@ -60,7 +117,15 @@ def translate(ctx):
     changed = [k for k in sorted(set(cur) | set(exp)) if cur.get(k) != exp.get(k)]
     ident = all(cur.get("ProdDfirBuilder::" + fn) and "#out_ident = #in_ident;" in cur["ProdDfirBuilder::" + fn]
                 for fn in ("begin_atomic", "end_atomic", "yield_from_tick"))
-    return [("atomic region API + production lowering text the model was written from is unchanged (%d fragments)" % len(exp),
+    arms = {k: cur.get(k) for k in _AGG_ARMS}
+    bad = _agg_facts(arms)
+    tl = cur.get("location/dynamic.rs::is_top_level") or ""
+    atomic_top = bool(re.search(r"LocationId::Atomic\(_\) => true", tl))
+    return [("emit_core Fold/FoldKeyed and Reduce/ReduceKeyed arms: state lifetime is cross-tick iff the INPUT location "
+             "`is_top_level()` (not `is_root()`), so fold AND reduce state of an atomic region survives the tick", not bad,
+             "; ".join(bad) if bad else "both arms: input_top_level = input.metadata().location_id.is_top_level()"),
+            ("LocationId::is_top_level counts Atomic(_) as top level", atomic_top, str(atomic_top)),
+            ("atomic region API + production lowering text the model was written from is unchanged (%d fragments)" % len(exp),
              not changed, "changed: " + ", ".join(changed) if changed else "all equal"),
             ("production begin_atomic / end_atomic / yield_from_tick emit `out = in` (same DFIR tick)", ident, str(ident))]
 
@@ -71,7 +136,8 @@ SPEC = dict(
     parts=[
         dict(_common, props_module="HvHydro2.Props.C34", harness="hv_hydro2", bin="hv_hydro2", mode="c34",
              cases={"quick": 600, "thorough": 12000}, translate=translate),
-        # simulator tie: the summing register compiled with the simulator backend, every schedule (exhaustive)
+        # simulator tie: the summing register and the last-writer-wins (reduce) register compiled with the
+        # simulator backend, every schedule (exhaustive)
         dict(_common, harness="hv_hydro2_sim", bin="hv_hydro2_sim", mode="c34sim",
              cases={"quick": 12, "thorough": 40}),
     ],
@@ -79,7 +145,7 @@ SPEC = dict(
     level="proof",
     design_ref="DESIGN.md §5 C34",
     technique="Lean 4 proofs over a model of an atomic region with explicit batch decisions + pinned API/lowering text (T) + production-generated atomic write/ack/read programs under random tick partitions (C, part 1) + the summing register compiled with the simulator backend and run under CompiledSim::exhaustive with scripted write / await-ack / read scenarios, every explored execution judged by the property oracle and by the model's admissibility predicate (C, part 2)",
-    level_text=("Partial (two corpus shapes; the simulator part covers the summing register only). Theorems, for every "
+    level_text=("Partial (fold-style and reduce-style registers; the simulator part covers the summing and the last-writer-wins register). Theorems, for every "
                 "schedule of the atomic region (how many buffered writes each run takes): ack_implies_visible — the state an "
                 "atomic snapshot reads in tick t is the fold of exactly the writes acknowledged in ticks 0..t; "
                 "atomic_snapshot_reads_acked_prefix — that set is a prefix of all writes in order (so a read value is the fold "
@@ -88,15 +154,26 @@ SPEC = dict(
                 "in between folded in; acks_partition_writes — acknowledgements are the writes, each once, in order; "
                 "keyed_counter_read_after_write — for the tutorial's per-key counter a get sees exactly the increments of "
                 "its key acknowledged so far, hence at least those acknowledged at any earlier tick; "
+                "reduce-style state (Stream::last / max / keyed reduce inside the region, same model with keep-last / keep-max "
+                "as the fold): lastWriter_ack_implies_visible — an atomic snapshot of tick t reads the LAST write acknowledged in "
+                "ticks 0..t and is never empty once something was acknowledged; lastWriter_read_after_ack — a read d ticks later "
+                "without new acknowledgements still reads it; max_ack_implies_visible; keyed_lww_read_after_write; "
+                "lww_snapshot_admissible (the clause of the simulator verdict simLwwOk); "
                 "prod_atomic_acks_same_tick; nonatomic_snapshot_can_miss_ack (contrast: an ordinary snapshot hook may "
                 "re-release an older version). T: the text of atomic / batch_atomic / end_atomic / snapshot_atomic, "
                 "batch_atomic.rs and ProdDfirBuilder::{begin_atomic,end_atomic,batch,yield_from_tick} is pinned and the "
-                "`out = in` lowering re-read each run. C part 1 (production): the summing register of location/tick.rs's test "
-                "and an integer-keyed copy of hydro_test::tutorials::keyed_counter (plus a non-atomic contrast program) are "
+                "`out = in` lowering re-read each run; the emit_core arms Fold/FoldKeyed/Scan and Reduce/ReduceKeyed are pinned and "
+                "re-read: the DFIR state lifetime is cross-tick iff the aggregation's INPUT location is_top_level() (which counts "
+                "Atomic, unlike is_root()). C part 1 (production): the summing register of location/tick.rs's test "
+                "and an integer-keyed copy of hydro_test::tutorials::keyed_counter (plus a non-atomic contrast program), and three reduce-style registers - last-writer-wins (.last()), "
+                "high-water mark (.max()), per-key last-writer-wins (keyed reduce; a get of a key joins the atomic snapshot) - "
+                "half of whose runs have >= 3 ticks with writes only in the early ticks and reads in later ticks, are "
                 "compiled through generate_embedded, run on fresh instances under random tick partitions of writes and "
                 "reads, per-tick acks and read responses diffed against the compiled model; oracle on the real code: "
                 "every response in tick t reflects all writes acknowledged in ticks < t, never a write not yet fed, and "
-                "the acks are exactly the writes. C part 2 (simulator): the summing register built on sim_input/sim_output "
+                "the acks are exactly the writes; for the reduce-style registers: a read never sees an empty register / no "
+                "register after an acknowledged write, sees the last acknowledged write or a later one (max: at least every "
+                "acknowledged one). C part 2 (simulator): the summing register and the .last() register built on sim_input/sim_output "
                 "and compiled with flow.sim().compiled() (SimBuilder begin_atomic / end_atomic / batch and the atomic snapshot "
                 "hook) is run under CompiledSim::exhaustive with scripted test bodies (send writes / await an "
                 "acknowledgement / send reads / await a response; 5 fixed scripts incl. those of the library's own test + "
@@ -104,15 +181,17 @@ SPEC = dict(
                 "the real observations: a response is the sum of a prefix of the writes that contains every write whose "
                 "acknowledgement the test body had observed BEFORE it issued the read (acknowledged => visible to every "
                 "later atomic snapshot), consecutive awaited responses never go back, and the acknowledgements are exactly "
-                "the writes in order; the Lean driver judges the same timeline with simAtomicOk."),
+                "the writes in order; the Lean driver judges the same timeline with simAtomicOk (for the .last() register: a response is the "
+                "value of the last write acknowledged before the read was issued or of a later write, never empty after an "
+                "acknowledgement; simLwwOk)."),
     level_note=("Modelled, not verified: that all operators of an atomic region and the atomic snapshot run in one tick is "
                 "the model's construction; it is tied by the production corpus (lowering `out = in` on one DFIR graph) and, "
-                "for the summing register only, by the exhaustive simulator runs; the keyed counter (use::atomic of a keyed "
+                "for the summing and the last-writer-wins register only, by the exhaustive simulator runs; the keyed counter / keyed registers (use::atomic of a keyed "
                 "singleton joined with a keyed batch) is not run in the simulator. In production a stale-by-one-tick "
                 "snapshot would not violate the property as stated (ack and read are simultaneous); it is caught by the "
                 "correspondence only — in the simulator part it IS a property violation (script: write, await ack, read)."),
     trusted_base=["hand-written model of the atomic region (pinned text, not translated)",
-                  "hydro_lang emit_core lowering of BeginAtomic / EndAtomic / Batch / fold / join_keyed_singleton for the 3 corpus flows (production) and the simulator flow: exercised and diffed",
+                  "hydro_lang emit_core lowering of BeginAtomic / EndAtomic / Batch / fold / reduce / reduce_keyed / join_keyed_singleton for the 6 corpus flows (production) and the 2 simulator flows: exercised and diffed",
                   "bolero's exhaustive driver enumerates the simulator's decision space (C37)"],
     assumptions=["production code generation (one DFIR tick runs the atomic region and the slices that read it)",
                  "writes of the summing register are positive in generated cases (so 'reflects' is >= and prefix sums identify the prefix)"],
